@@ -473,12 +473,23 @@ def h_lookup_rules(eng):
               first=label(got[0]), second=label(got[1]))
 
 
+def h_instances_share_nothing_with_the_tree(eng):
+    """Every instance is built from its OWN copy of the classes it uses: flatten_symbols edits prefix lists in place (it strips
+    input / output from nested symbols), so a symbol or prefix list shared between the parsed tree, a nested instance and a
+    top-level instance would let the flattening of one component change the prefixes of another variable.  This is C05's ownership
+    contract of tree.py (objects of the tree only flow into parent links, look-ups or copies), which C07 depends on for
+    "each flat variable keeps its declared prefixes; input/output survive on top-level components"."""
+    from contracts import C05
+    C05.h_ownership(eng)
+
+
 HARNESSES = [("flatten_symbols: one level, recursive call under contract", h_flatten_symbols_step),
              ("ComponentRefFlattener.enterComponentRef", h_reference_renaming),
              ("flatten_extends: bases under contract", h_flatten_extends),
-             ("build_instance_tree: symbol loop", h_one_instance_per_component), ("ast.Class._find_class: look-up rules", h_lookup_rules)]
+             ("build_instance_tree: symbol loop", h_one_instance_per_component), ("ast.Class._find_class: look-up rules", h_lookup_rules),
+             ("tree.py: instances are built from copies (ownership)", h_instances_share_nothing_with_the_tree)]
 EXPECTED_COVER = {"step.nested", "step.top", "rename.depth1", "rename.depth2", "rename.depth3", "rename.found", "rename.missing", "rename.inside_modification",
-                  "extends.0_bases", "extends.1_bases", "extends.2_bases", "extends.own_redeclares", "instances.loop", "lookup.found", "lookup.missing"}
+                  "extends.0_bases", "extends.1_bases", "extends.2_bases", "extends.own_redeclares", "instances.loop", "lookup.found", "lookup.missing", "ownership.tree"}
 BOUNDED = True
 LEVEL = "proof"
 TRUSTED = ["copy.deepcopy follows CPython's documented protocol (contracts/copy_model.py)", "Class.find_class returns a copy of the class the Modelica lookup rules select (lookup rules themselves are not under contract here; sampled by the bounded replay)",
